@@ -34,17 +34,25 @@ def r08_1(ctx, rr):
         clos = []
         lits = []
         bl_args = []
+        bl_known = []
+        bl_arg_ids = []
 
         def on_node(W, n, K):
             if n.get("k") == "Struct" and (F.defpath(n) or "").endswith("VFilter"):
                 lits.append({f["name"]: W.T.term(f["e"]) for f in n["fields"]})
             if cname(F, n) == "VBuilder::build_loop":
                 bl_args.append([W.T.term(a) for a in call_args(n)])
+                bl_known.append(K.copy())
+                # get_val is the fifth argument (self, keys, values, bit_width, get_val, new_data, pl)
+                ca = call_args(n)
+                if len(ca) > 4:
+                    bl_arg_ids.extend(x["id"] for x in walk(ca[4]) if x.get("k") == "Path" and x.get("res") == "local")
         W = Walker(F, b, on_node=on_node)
-        for n in walk(b.body):
-            if n.get("k") == "LetStmt" and n["pat"].get("name") == "get_val" and n.get("init", {}).get("k") == "Closure":
-                clos.append(n["init"])
         W.run()
+        # the closure computing the stored value: the let-bound closure handed to build_loop (by role, not by name)
+        for n in walk(b.body):
+            if n.get("k") == "LetStmt" and n["pat"].get("k") == "PBind" and n.get("init", {}).get("k") == "Closure" and n["pat"]["id"] in bl_arg_ids and len(n["init"].get("params", [])) == 2:
+                clos.append(n["init"])
         if len(clos) != 1 or len(lits) != 1 or len(bl_args) != 1:
             raise AnchorMissing("%s: expected one get_val closure, one VFilter literal and one build_loop call" % b.key)
         c = clos[0]
@@ -84,9 +92,14 @@ def r08_1(ctx, rr):
         rr.check(oks, "%s:stored-mask=filter_mask" % nm, "%s: the value stored must be masked with the very filter_mask kept in the filter; stored mask %s vs filter_mask %s" % (b.key, tshow(hc[1]) if hc and hc[1] else None, tshow(fm)), b.span)
         if not is_max:
             # asserts 0 < b <= BITS dominate
-            asserts = [show(F, n["c"]) for n in walk(b.body) if n.get("k") == "If" and diverges(F, n["th"]) and not is_debug_only(F, n)]
             rr.instances += 1
-            rr.check(any("filter_bits > 0" in a for a in asserts) and any("filter_bits <= AsBytes::BITS" in a for a in asserts), "%s:asserts-b-range" % nm, "%s must assert 0 < filter_bits <= W::BITS before computing the mask (a shift by W::BITS would overflow)" % b.key, b.span)
+            K0 = bl_known[0]
+            raw_b = bterm
+            while raw_b is not None and raw_b[0] == "cast":
+                raw_b = raw_b[2]
+            lo_ok = raw_b is not None and (K0.entails(atom_le(("int", 1), raw_b)) or K0.entails(atom_le(("int", 0), raw_b, True)))
+            hi_ok = raw_b is not None and any(a[0] == "le" and a[3] <= 0 and a[1] == raw_b and a[2][0] == "def" and a[2][1].endswith("BITS") for a in K0.atoms)
+            rr.check(lo_ok and hi_ok, "%s:asserts-b-range" % nm, "%s must assert 0 < filter_bits <= W::BITS before computing the mask (a shift by W::BITS would overflow)" % b.key, b.span)
     # queries
     for path in (r"^dict::vfilter::VFilter::<W, func::vfunc::VFunc<T, W, D, S, E>>::contains_by_sig$", r"^dict::vfilter::VFilter::<W, func::vfunc::VFunc<T, W, bits::bit_field_vec::BitFieldVec<W>, S, E>>::contains_by_sig_unaligned$"):
         q = F.one(path)
